@@ -97,6 +97,11 @@ def gen_sched(r: Any, sid: str, kn: dict, start_us: int, horizon_us: int, onesho
             # an expression that cannot be parsed (wrong number of fields): matches no minute, must not disturb the other schedules
             s["cron"] = r.choice(["abc", "* * * *", "* * * * * *", ""])
             s["invalid_cron"] = True
+        import random as _random
+        ra = _random.Random(f"also_time:{sid}:{s['cron']}:{start_us}:{horizon_us}")      # its own stream: no draw taken from r
+        if ra.random() < kn.get("p_cron_with_time", 0.12):
+            # legal: a schedule that carries both; the cron expression governs, the instant is ignored (it may be long past)
+            s["also_time"] = {"us": start_us + ra.randint(-3_600_000_000, horizon_us), "repr": ra.choice(TIME_REPRS)}
     return s
 
 
